@@ -302,6 +302,59 @@ def small_pieces(rep):
         rep.ob("E1 conflict check", "unsupported", "z3", 0, where2, "contract", str(ex_))
 
 
+def _scribble(obj, seen=None):
+    """overwrite, in place, every mutable object reachable from an environment"""
+    seen = seen if seen is not None else set()
+    if id(obj) in seen:
+        return 0
+    seen.add(id(obj))
+    n = 0
+    if isinstance(obj, dict):
+        for k in list(obj):
+            v = obj[k]
+            n += _scribble(v, seen)
+            if isinstance(v, bool):
+                obj[k] = not v
+            elif isinstance(v, (int, float)):
+                obj[k] = v + 1000
+            n += 1
+    elif isinstance(obj, list):
+        for i, v in enumerate(obj):
+            n += _scribble(v, seen)
+            if isinstance(v, (int, float)) and not isinstance(v, bool):
+                obj[i] = v + 1000
+                n += 1
+    elif isinstance(obj, numpy.ndarray):
+        if obj.flags.writeable and obj.dtype.kind in "fi":
+            obj += 1000
+            n += obj.size
+    return n
+
+
+def history_independence(rep, tier):
+    """H: the environment is a function of the date alone -- after every mutable object reachable from
+    previously returned environments (same day, next day, a year earlier) has been overwritten in
+    place, a new set-up for the day still equals the specification (nothing returned earlier is
+    shared with what is returned later). Deterministic sequence on the real loader."""
+    from _gettsim.policy_environment import set_up_policy_environment
+
+    days = [datetime.date(2022, 3, 1), datetime.date(2005, 3, 1)] if tier == "quick" else [datetime.date(2022, 3, 1), datetime.date(2005, 3, 1), datetime.date(2015, 1, 1), datetime.date(2021, 7, 1), datetime.date(2024, 1, 1), datetime.date(1999, 12, 31)]
+    for d in days:
+        bad = []
+        n = 0
+        with warnings.catch_warnings():
+            warnings.simplefilter("ignore")
+            for prev in (d, d + datetime.timedelta(days=1), d.replace(year=d.year - 1)):
+                p1, _ = set_up_policy_environment(prev)
+                n += _scribble(p1)
+            p2, _ = set_up_policy_environment(d)
+        bad = [x for x in check_class(d, d, p2) if not x[1]]
+        rep.ob(f"H environment of {d} equals the specification after {n} values of earlier environments were overwritten in place", "refuted" if bad else "discharged", "exhaustive-run", 0, "src/_gettsim/policy_environment.py:21 set_up_policy_environment", "history", "; ".join(f"{x[0]}: {x[2]}" for x in bad[:3]))
+        if bad:
+            rep.violation(f"history:{d}", f"set_up_policy_environment({d}) after in-place edits of earlier environments (same day, next day, a year before) differs from the law in force: " + "; ".join(f"{x[0]}: {x[2]}" for x in bad[:3]),
+                          {"obligation": "H", "date": str(d), "replay": "history", "differences": [f"{x[0]}: {x[2]}" for x in bad[:10]]}, True)
+
+
 def declared_change_points():
     ds = set(venv.yaml_dates()) | set(venv.decorator_dates())
     out = set(ds)
@@ -316,6 +369,12 @@ def declared_change_points():
 
 def replay(path):
     rp = json.loads(open(path).read())
+    if rp.get("replay") == "history":
+        r2 = Report("C07", "replay", 0, "proof")
+        history_independence(r2, "thorough")
+        bad = [o for o in r2.obligations if o["status"] != "discharged"]
+        print(json.dumps({"differences": [o["detail"] for o in bad]}, indent=1))
+        return 1 if bad else 0
     if "date" in rp and "group" in rp:
         from _gettsim.policy_environment import set_up_policy_environment
 
@@ -338,6 +397,7 @@ def run(tier="quick", seed=0, jobs=16):
                        ASSUMPTIONS["A1"] + " (only in the E1 obligations; dates as integers)"]
     rep.trusted = ["yaml.CLoader", "copy.deepcopy", "CPython datetime", "z3 5.1.0", "E1 encoder"]
     small_pieces(rep)
+    history_independence(rep, tier)
     last = venv.last_parameter_date()
     end = last.replace(year=last.year + 1)
     # one job per calendar year keeps the workers busy; classes never span 1 January anyway
